@@ -191,3 +191,35 @@ def targeted_tampers(log_text, limit=3):
         if len(out) >= limit:
             break
     return out[:limit]
+
+
+def later_subblock_tampers(log_text, limit=4):
+    """Deterministic tamperings of the entries of sub-blocks that are NOT the first of their block (key ..._block_N_K, K >= 1):
+    the index of a DUPk / SWAPk id is moved by one.  A checker that carries anything over from the sub-blocks it has already
+    compared (names of stack variables are local to a sub-block) accepts these when the sub-blocks repeat the same code."""
+    try:
+        log = json.loads(log_text)
+    except ValueError:
+        return []
+    out = []
+    for k in sorted(log):
+        m = re.match(r".*_(\d+)$", k)
+        if not m or int(m.group(1)) < 1:
+            continue
+        ids = log[k]
+        for j, x in enumerate(ids):
+            mm = re.fullmatch(r"(DUP|SWAP)(\d+)", x)
+            if not mm:
+                continue
+            for d in (-1, 1):
+                q = int(mm.group(2)) + d
+                if not 1 <= q <= 16:
+                    continue
+                new = dict(log)
+                seq = list(ids)
+                seq[j] = "%s%d" % (mm.group(1), q)
+                new[k] = seq
+                out.append((json.dumps(new), "ids:later_subblock_%s_index" % mm.group(1).lower()))
+                if len(out) >= limit:
+                    return out
+    return out
